@@ -168,7 +168,33 @@ type harnessRef struct {
 	pkg *ssa.Package
 }
 
+// aliases: harnesses of other properties that also decide obligations of this property
+// (/verif/harness/aliases.json: {"C08": ["C01.fat_write_place_start1m", ...]}).
 func findHarnesses(ld *loaded, prop, only string) []harnessRef {
+	out := findOwn(ld, prop, only)
+	if b, err := os.ReadFile("/verif/harness/aliases.json"); err == nil {
+		var al map[string][]string
+		if json.Unmarshal(b, &al) == nil {
+			for _, id := range al[prop] {
+				if only != "" && !strings.Contains(id, only) {
+					continue
+				}
+				i := strings.Index(id, ".")
+				if i < 0 {
+					continue
+				}
+				for _, h := range findOwn(ld, id[:i], "") {
+					if h.id == id {
+						out = append(out, h)
+					}
+				}
+			}
+		}
+	}
+	return out
+}
+
+func findOwn(ld *loaded, prop, only string) []harnessRef {
 	var out []harnessRef
 	prefix := "VP_" + prop + "_"
 	for _, p := range ld.prog.AllPackages() {
